@@ -309,7 +309,11 @@ func runRegCase(c *regCase) (vs []Violation, s *sim.Sim) {
 				if err != nil {
 					if st.Op == "padd" {
 						// under contention an Add may give up (lock not acquired); the case ends here, what
-						// was added is not known to the model
+						// was added is not known to the model (the ids of this step are taken out of it)
+						for _, k := range st.IDs {
+							delete(model, k)
+							delete(removed, k)
+						}
 						return
 					}
 					add(st.Op+"-error", fmt.Sprintf("step %d %s%v failed on a fault-free disk: %v", si, st.Op, st.IDs, err))
